@@ -62,9 +62,85 @@ class C04(CtxCheck):
         # race19: two/three tasks in their own child contexts call ONE injected coroutine function with two injected parameters
         # (the product handed to a call must be the one of the context the call was made in)
         return (super().units(tier, seed) + race_units(tier) + [{"dispatch_raises": api} for api in ("nowait", "async", "inject")]
-                + reent.units(tier) + [{"race19": u} for u in R19.units(tier, seed)])
+                + reent.units(tier) + [{"race19": u} for u in R19.units(tier, seed)]
+                + [{"explicit_parent": {"api": api, "fkind": fk, "leave": lv}} for api in ("s_nowait", "s_async", "inj_sync", "inj_async")
+                   for fk in ("sync", "async") for lv in ("clean", "exc") if not (fk == "async" and api in ("s_nowait", "inj_sync"))])
+
+    def explicit_parent_unit(self, unit: dict) -> dict:
+        """root (holds the factory) > mid; inside mid a context with the EXPLICIT parent root is entered and left; a lookup made
+        afterwards through the current context (shortcut / @inject) generates in mid - the requesting context - not in root."""
+        import anyio
+
+        from ..explore import new_summary
+
+        p = unit["explicit_parent"]
+        fails: list = []
+
+        async def main() -> None:
+            import asphalt.core as ac
+            from asphalt.core import Context, inject, resource
+
+            class T:
+                pass
+
+            made: list = []
+
+            def sync_factory() -> Any:
+                made.append(T())
+                return made[-1]
+
+            async def async_factory() -> Any:
+                made.append(T())
+                return made[-1]
+
+            @inject
+            def inj_sync(r: T = resource()) -> Any:
+                return r
+
+            @inject
+            async def inj_async(r: T = resource()) -> Any:
+                return r
+
+            async with Context() as root:
+                root.add_resource_factory(sync_factory if p["fkind"] == "sync" else async_factory, types=T)
+                async with Context() as mid:
+                    try:
+                        async with Context(root):
+                            if p["leave"] == "exc":
+                                raise KeyError("leave")
+                    except KeyError:
+                        pass
+                    if p["api"] == "s_nowait":
+                        got = ac.get_resource_nowait(T)
+                    elif p["api"] == "s_async":
+                        got = await ac.get_resource(T)
+                    elif p["api"] == "inj_sync":
+                        got = inj_sync()
+                    else:
+                        got = await inj_async()
+                    mine = await mid.get_resource(T)
+                    if got is not mine or len(made) != 1:
+                        fails.append(("generated-scope", f"a lookup made inside `mid` through {p['api']} after a Context(root) block had been left returned "
+                                                         f"an object that `mid` does not hold (factory calls: {len(made)})"))
+                    if root.get_resources(T):
+                        fails.append(("generated-scope", f"the parent context holds a generated object after a lookup made in its child: {root.get_resources(T)!r}"))
+
+        try:
+            anyio.run(main)
+        except BaseException as e:  # noqa: BLE001
+            fails.append(("generated-scope", f"scenario raised {e!r}"))
+        s = new_summary()
+        s["evaluations"] = s["transitions"] = s["states"] = s["distinct"] = s["nontrivial"] = 1
+        s["outcomes"] = {"done": 1}
+        if fails:
+            s["violations"].append({"keys": ["generated-scope"], "fails": [list(f) for f in fails], "program": dict(unit), "choices": [], "trace": [],
+                                    "outcome": "done"})
+            s["keyhist"] = {"generated-scope": 1}
+        return s
 
     def work(self, unit: dict, tier: str) -> dict:
+        if "explicit_parent" in unit:
+            return self.explicit_parent_unit(unit)
         if "reent" in unit:
             from . import reent
 
@@ -148,6 +224,13 @@ class C04(CtxCheck):
         return s
 
     def replay(self, rec: dict) -> Any:
+        if "explicit_parent" in rec.get("program", {}):
+            s = self.explicit_parent_unit(rec["program"])
+            for v in s["violations"]:
+                for f in v["fails"]:
+                    print("FAIL", f[0], "-", f[1])
+            print(f"VIOLATION property=C04 replay={rec.get('_path', '')}" if s["violations"] else "no violation on this tree")
+            return 1 if s["violations"] else 0
         if "reent" in rec.get("program", {}):
             from . import reent
 
